@@ -1,0 +1,152 @@
+//! Add-only observer for the `verif` facade (`crate::verif`): drives the real [`BlobSubmitter`]
+//! batching state (`next_submission`, `pending_block`) without a Celestia client.
+//!
+//! Everything here forwards to the real private methods of [`BlobSubmitter`] and
+//! [`conversion::NextSubmission`]. The only mirrored piece is the three-line body of the
+//! "take a submission" arm of `BlobSubmitter::run`'s select loop (take, then re-add the pending
+//! block), which cannot be invoked in isolation.
+
+use std::sync::Arc;
+
+use astria_eyre::eyre::{
+    self,
+    WrapErr as _,
+};
+use celestia_types::Blob;
+use futures::FutureExt as _;
+use sequencer_client::SequencerBlock;
+use tokio::sync::mpsc;
+use tokio_util::sync::CancellationToken;
+
+use super::{
+    super::{
+        CelestiaClientBuilder,
+        CelestiaKeys,
+        State,
+    },
+    conversion::{
+        self,
+        NextSubmission,
+    },
+    BlobSubmitter,
+};
+use crate::{
+    metrics::Metrics,
+    IncludeRollup,
+};
+
+pub(crate) use conversion::verif_hooks::{
+    convert,
+    PayloadParts,
+    MAX_PAYLOAD_SIZE_BYTES,
+};
+
+/// The observable parts of a taken [`conversion::Submission`].
+pub(crate) struct SubmissionParts {
+    pub(crate) num_blocks: usize,
+    pub(crate) num_blobs: usize,
+    pub(crate) compressed_size: usize,
+    pub(crate) uncompressed_size: usize,
+    pub(crate) greatest_sequencer_height: u64,
+    pub(crate) sequencer_heights: Vec<u64>,
+    pub(crate) rollups_included: Vec<astria_core::primitive::v1::RollupId>,
+    pub(crate) rollups_excluded: Vec<astria_core::primitive::v1::RollupId>,
+    pub(crate) blobs: Vec<Blob>,
+}
+
+pub(crate) struct Batcher {
+    submitter: BlobSubmitter,
+    // keeps the submitter's receiver open; never used to send
+    _blocks_tx: mpsc::Sender<Box<SequencerBlock>>,
+}
+
+impl Batcher {
+    /// Builds a real `BlobSubmitter` whose Celestia client builder points nowhere (it is never
+    /// used: `run` is not called). Must be called inside a tokio runtime context because the
+    /// lazy tonic channel spawns its worker.
+    pub(crate) fn new(
+        rollup_filter: IncludeRollup,
+        metrics: &'static Metrics,
+    ) -> eyre::Result<Self> {
+        let state = Arc::new(State::new());
+        let signing_key = tendermint::private_key::Secp256k1::from_slice(&[1_u8; 32])
+            .wrap_err("failed constructing a dummy celestia signing key")?;
+        let client_builder = CelestiaClientBuilder::new(
+            "verif".to_string(),
+            0.0,
+            http::Uri::from_static("http://127.0.0.1:1"),
+            CelestiaKeys::from(signing_key),
+            state.clone(),
+        )
+        .wrap_err("failed constructing the celestia client builder")?;
+        let (tx, rx) = mpsc::channel(1);
+        let submitter = BlobSubmitter {
+            client_builder,
+            blocks: rx,
+            next_submission: NextSubmission::new(rollup_filter, metrics),
+            state,
+            submission_state_at_startup: None,
+            submitter_shutdown_token: CancellationToken::new(),
+            pending_block: None,
+            metrics,
+        };
+        Ok(Self {
+            submitter,
+            _blocks_tx: tx,
+        })
+    }
+
+    /// The real `BlobSubmitter::has_capacity`.
+    pub(crate) fn has_capacity(&self) -> bool {
+        self.submitter.has_capacity()
+    }
+
+    pub(crate) fn pending_height(&self) -> Option<u64> {
+        self.submitter
+            .pending_block
+            .as_ref()
+            .map(|block| block.height().value())
+    }
+
+    /// The "receive a block" arm of `BlobSubmitter::run`: guarded by the real `has_capacity`
+    /// (a block that is not received stays in the channel, here: is handed back), then the real
+    /// `add_sequencer_block_to_next_submission`.
+    pub(crate) fn offer(
+        &mut self,
+        block: SequencerBlock,
+    ) -> Result<eyre::Result<()>, SequencerBlock> {
+        if !self.submitter.has_capacity() {
+            return Err(block);
+        }
+        Ok(self.submitter.add_sequencer_block_to_next_submission(block))
+    }
+
+    /// The "take a submission" arm of `BlobSubmitter::run`: the real `NextSubmission::take`
+    /// and, if something was taken, re-adding the pending block through the real
+    /// `add_sequencer_block_to_next_submission`.
+    pub(crate) fn take(&mut self) -> Option<(SubmissionParts, eyre::Result<()>)> {
+        let submission = self
+            .submitter
+            .next_submission
+            .take()
+            .now_or_never()
+            .expect("`TakeSubmission` is ready on its first poll")?;
+        let readd_pending = match self.submitter.pending_block.take() {
+            Some(block) => self.submitter.add_sequencer_block_to_next_submission(block),
+            None => Ok(()),
+        };
+        let meta = submission.input_metadata();
+        let parts = SubmissionParts {
+            num_blocks: submission.num_blocks(),
+            num_blobs: submission.num_blobs(),
+            compressed_size: submission.compressed_size(),
+            uncompressed_size: submission.uncompressed_size(),
+            greatest_sequencer_height: submission.greatest_sequencer_height().value(),
+            sequencer_heights: meta.verif_sequencer_heights(),
+            rollups_included: meta.verif_rollups_included(),
+            rollups_excluded: meta.verif_rollups_excluded(),
+            blobs: submission.into_blobs(),
+        };
+        Some((parts, readd_pending))
+    }
+}
